@@ -162,6 +162,9 @@ impl AbstractTree for Tree {
             .expect("lock is poisoned")
             .get_version_for_snapshot(seqno);
 
+        #[cfg(feature = "verif_hooks")]
+        crate::verif::yield_point("get:pinned");
+
         Self::get_internal_entry_from_version(&super_version, key, seqno)
     }
 
@@ -903,6 +906,9 @@ impl Tree {
             .read()
             .expect("lock is poisoned")
             .get_version_for_snapshot(seqno);
+
+        #[cfg(feature = "verif_hooks")]
+        crate::verif::yield_point("range:pinned");
 
         Self::create_internal_range(super_version, range, seqno, ephemeral).map(|item| match item {
             Ok(kv) => Ok((kv.key.user_key, kv.value)),
